@@ -54,6 +54,18 @@ def _register_all():
     for label, ptx in (("P", F(8)), ("P-2%", F(784, 100)), ("P+2%", F(816, 100))):
         reg(f"uart.rx(P=8,line={label},all_bytes)", "thorough",
             lambda label=label, ptx=ptx: U.RxHarness(f"uart.rx(P=8,line={label},all_bytes)", 2**29, ptx, range(256), phases=None if ptx.denominator == 1 else range(0, 25, 6)))
+    # -- SPI master ---------------------------------------------------------------------------------
+    from checks import c19_spi as S
+    def spi(name, tier, **kw):
+        reg(name, tier, lambda: S.SpiMasterHarness(name, **kw))
+    for div in (2, 3, 4, 5):
+        for mode in ("raw", "aligned"):
+            spi(f"spi.master(dw=4,div={div},{mode})", "quick", dw=4, div=div, mode=mode)
+    spi("spi.master(dw=4,div=2,raw,loopback)", "quick", dw=4, div=2, mode="raw", loopback=1)
+    spi("spi.master(dw=4,div=3,aligned,loopback)", "quick", dw=4, div=3, mode="aligned", loopback=1)
+    spi("spi.master(dw=4,div=2,aligned,cs_manual,ncs=2)", "quick", dw=4, div=2, mode="aligned", cs_mode=1, ncs=2)
+    spi("spi.master(dw=4,div=3,raw,ncs=2)", "quick", dw=4, div=3, mode="raw", ncs=2)
+    spi("spi.master(dw=4,div=2,aligned,csr)", "quick", dw=4, div=2, mode="aligned", csr=True, ncs=2)
 
 
 _register_all()
